@@ -404,12 +404,15 @@ def rm(ctx):
                 from .loops import loop_of_block
                 lp_e = loop_of_block(it, bb)
 
+                # (a replica that holds a listed element does not have an empty element table: `if !self.entries.is_empty() { loop }`)
+                ent_empty = emptiness_atom({'ent_empty': (1, (r['entries'],))})
+
                 def has_atom(t):
-                    return presence_atom(t, 1, r['entries'], 'has')
+                    return presence_atom(t, 1, r['entries'], 'has') or ent_empty(t)
                 skipped = None
                 for o_ in PARTIAL:
                     rc_o = Reach(facts, body, Evaluator(facts, classify=defer_classifier([], r['clock']), bool_atom=has_atom,
-                                                        assumption={'defer': o_, 'has': True}))
+                                                        assumption={'defer': o_, 'has': True, 'ent_empty': False}))
                     if lp_e is not None:
                         if not lp_e.must(rc_o, [bb]) or not rc_o.must_pass([lp_e.head]):
                             skipped = o_
